@@ -179,14 +179,16 @@ def content_view(s):
 
 
 # --------------------------------------------------------------------------------------------- worlds
-IGNORED_PATTERNS = ["skip", "ign_*.py"]          # prefs ignored_resources of every generated project
+# prefs ignored_resources of every generated project: a folder name, a file pattern, and the documented '//' form
+# ("gen//*.py": the python files at ANY depth below gen)
+IGNORED_PATTERNS = ["skip", "ign_*.py", "gen//*.py"]
 
 
 def is_ignored_by_construction(rel):
     """independent of rope's matcher: the generator only creates ignored resources named skip/... and ign_*.py"""
     parts = rel.split("/")
     return ("skip" in parts or (parts[-1].startswith("ign_") and parts[-1].endswith(".py")) or ".ropeproject" in parts
-            or parts[-1] == "lnk.py")
+            or parts[-1] == "lnk.py" or ("gen" in parts[:-1] and parts[-1].endswith(".py")))
 
 
 FUNCS = ["f", "g"]
@@ -268,10 +270,17 @@ def gen_world(rng):
     files["proj/skip/z.py"] = "from a import %s\nimport a\nprint(%s(1), a.%s)\n" % (fa, fa, va)
     files["proj/ign_q.py"] = "import a\nprint(a.%s(2), a.%s)\n" % (fb, ca)
     files["proj/notes.txt"] = "%s %s %s\n" % (fa, ca, va)
+    files["proj/gen/g1.py"] = "import a\nfrom a import %s\nprint(%s(1), a.%s, a.%s)\n" % (fa, fa, va, ca)
+    files["proj/gen/deep/g2.py"] = "import a\nprint(a.%s(2), a.%s(1), a.%s)\n" % (fb, fa, va)
+    files["proj/gen/readme.txt"] = "%s\n" % fa
     # the out-of-project folder
     files["ext/extmod.py"] = ("EXT_V = 3\n\ndef ext_f(p):\n    return p + EXT_V\n\n"
                               "class ExtC:\n    def em(self):\n        return 1\n")
     files["ext/other.txt"] = "ext_f\n"
+    # a second out-of-project folder on python_path whose path EXTENDS the project root's path (<base>/proj_vendor)
+    files["proj_vendor/vmod.py"] = "VV = 7\n\ndef vf(p):\n    return p + VV\n"
+    if opt(0.7):
+        files["proj/b.py"] = "import vmod\n" + files["proj/b.py"] + "\nvv = vmod.vf(1) + vmod.VV\n"
     # a second project (cross-project refactorings, rope.refactor.multiproject) using the first one's modules
     files["proj2/u.py"] = "import a\nfrom a import %s\n\nprint(a.%s(1), %s(2), a.%s, a.%s)\n" % (fa, fa, fa, va, ca)
     prefs = {}
@@ -305,11 +314,69 @@ def materialize(world):
     return base
 
 
+class RefusingFS:
+    """fscommands delegating to rope's FileSystemCommands; the `armed`-th mutating call (write / move / create /
+    remove, counted from arm()) raises OSError instead of being performed: a disk that is full, a read-only file"""
+
+    def __init__(self):
+        from rope.base.fscommands import FileSystemCommands
+        self.real = FileSystemCommands()
+        self.armed = None
+        self.n = 0
+        self.fired = False
+
+    def arm(self, k):
+        self.armed, self.n, self.fired = k, 0, False
+
+    def _count(self, what):
+        if self.armed is not None:
+            i = self.n
+            self.n += 1
+            if i == self.armed:
+                self.fired = True
+                raise OSError(28, "No space left on device (injected at mutating call %d: %s)" % (i, what))
+
+    def create_file(self, path):
+        self._count("create_file")
+        return self.real.create_file(path)
+
+    def create_folder(self, path):
+        self._count("create_folder")
+        return self.real.create_folder(path)
+
+    def move(self, path, new_location):
+        self._count("move")
+        return self.real.move(path, new_location)
+
+    def remove(self, path):
+        self._count("remove")
+        return self.real.remove(path)
+
+    def write(self, path, data):
+        self._count("write")
+        return self.real.write(path, data)
+
+    def read(self, path):
+        return self.real.read(path)
+
+
 def open_project(base, world):
     from rope.base.project import Project
-    return Project(os.path.join(base, "proj"), ropefolder=world.get("ropefolder"),
-                   python_path=[os.path.join(base, "ext")], ignored_resources=list(IGNORED_PATTERNS),
-                   **world.get("prefs", {}))
+    return Project(os.path.join(base, "proj"), fscommands=RefusingFS(), ropefolder=world.get("ropefolder"),
+                   python_path=[os.path.join(base, "ext"), os.path.join(base, "proj_vendor")],
+                   ignored_resources=list(IGNORED_PATTERNS), **world.get("prefs", {}))
+
+
+def external_crlf(base, project, rel):
+    """OUTSIDE rope: the line ends of proj/<rel> become CRLF; rope is told with libutils.report_change"""
+    from rope.base import libutils
+    full = os.path.join(base, "proj", *rel.split("/"))
+    with open(full, "rb") as f:
+        old = f.read()
+    new = old.replace(b"\r\n", b"\n").replace(b"\n", b"\r\n")
+    with open(full, "wb") as f:
+        f.write(new)
+    libutils.report_change(project, full, old.decode("utf-8"))
 
 
 def open_second_project(base):
@@ -748,7 +815,7 @@ def exc_info(e):
             site = "%s:%s" % (fn.split("/rope/", 1)[1], tb.tb_frame.f_code.co_name)
         tb = tb.tb_next
     return {"cls": type(e).__name__, "module": type(e).__module__,
-            "rope_error": isinstance(e, exceptions.RopeError), "msg": str(e)[:160], "site": site}
+            "rope_error": isinstance(e, exceptions.RopeError), "os_error": isinstance(e, OSError), "msg": str(e)[:160], "site": site}
 
 
 def do_class_code(e):
@@ -770,6 +837,17 @@ def do_class_code(e):
 
 
 def serve(base, world, project, req, perform=True):
+    """One request on an open project, with the current directory inside the snapshotted base folder (a path that
+    is wrongly taken relative to the cwd then lands where the snapshots see it)."""
+    cwd = os.getcwd()
+    os.chdir(base)
+    try:
+        return _serve(base, world, project, req, perform)
+    finally:
+        os.chdir(cwd)
+
+
+def _serve(base, world, project, req, perform=True):
     """One request on an open project.  Returns a Served record (all fields JSON-able except snapshots)."""
     au = audit()
     r = Served()
@@ -848,6 +926,10 @@ def finish(base, project, changes, r, req, perform=True):
         handle = taskhandle.TaskHandle("C09")
         stopper = Stopper(handle, r.stop)
         handle.add_observer(stopper)
+    r.fault = req.get("fault")
+    fsc = getattr(project, "fscommands", None)
+    if r.fault is not None and hasattr(fsc, "arm"):
+        fsc.arm(r.fault)
     au.start()
     try:
         try:
@@ -860,6 +942,9 @@ def finish(base, project, changes, r, req, perform=True):
             r.do_code = do_class_code(e)
     finally:
         r.do_raw = au.stop()
+        r.fault_fired = bool(getattr(fsc, "fired", False))
+        if hasattr(fsc, "arm"):
+            fsc.arm(None)
     if stopper is not None:
         r.notifications = stopper.n
     r.s2 = snapshot(base)
